@@ -155,7 +155,7 @@ def family_structure(thorough):
 
 
 KINDS_SAME_QUICK = ((None, 'ref'), ('out.txt', 'ref'))
-KINDS_DIFF_QUICK = (((None, 'ref'), ('out.txt', 'ref')),)
+KINDS_DIFF_QUICK = ()
 KINDS_SAME_THOROUGH = ((None, 'ref'), ('out.txt', 'ref'), ('d/f', 'ref'), (None, 'copy'), ('out.txt', 'output'),
                        (None, 'link'))
 KINDS_DIFF_THOROUGH = (((None, 'ref'), ('out.txt', 'ref')), (('out.txt', 'ref'), (None, 'ref')),
@@ -223,7 +223,7 @@ def family_directs(thorough):
                 for ab in (False, True):
                     if cstage == 1 and not ab:
                         continue
-                    for kind in ((None, 'ref'), ('out.txt', 'ref'), ('out.txt', 'copy')):
+                    for kind in ((None, 'ref'), ('out.txt', 'ref')) + ((('out.txt', 'copy'),) if thorough else ()):
                         sets = [(d,) for d in DIRECTS] + [DIRECTS]
                         for ds in sets:
                             for where in ((1,), (0,), (0, 1)):
